@@ -894,6 +894,14 @@ func runEqual(raw json.RawMessage) (*Result, error) {
 	}
 	ab, abm := eqCall(a, b)
 	ba, bam := eqCall(b, a)
+	// asking again must give the same verdicts (comparing keeps no memory)
+	invariant := ""
+	if ab2, _ := eqCall(a, b); ab2 != ab {
+		invariant = fmt.Sprintf("a.IsEqual(b) gave verdict %d, then %d when asked again", ab, ab2)
+	}
+	if ba2, _ := eqCall(b, a); ba2 != ba && invariant == "" {
+		invariant = fmt.Sprintf("b.IsEqual(a) gave verdict %d, then %d when asked again", ba, ba2)
+	}
 	tags := map[string]bool{"mut:" + in.Mut: true}
 	tags[fmt.Sprintf("ab:%d", ab)] = true
 	tags[fmt.Sprintf("ba:%d", ba)] = true
@@ -922,7 +930,7 @@ func runEqual(raw json.RawMessage) (*Result, error) {
 	}
 	coq := fmt.Sprintf("(MkEq %s %s %d%%N %d%%N)", in.A.Coq(), in.B.Coq(), ab, ba)
 	nt := in.A.Count() >= 3 && (in.Mut != "copy" || in.A.Count() >= 5)
-	return &Result{Coq: coq, Observed: obs, Tags: joinTags(tags), Nontrivial: nt}, nil
+	return &Result{Coq: coq, Observed: obs, Tags: joinTags(tags), Nontrivial: nt, Invariant: invariant}, nil
 }
 
 // ---------------------------------------------------------------------------
